@@ -387,6 +387,7 @@ func c11GenScenario(r *core.Run) *c11Scenario {
 }
 
 func runC11(r *core.Run) {
+	resetLibrary()
 	var sc *c11Scenario
 	if r.Scenario != nil {
 		sc = &c11Scenario{}
